@@ -107,6 +107,15 @@ fn transport(kind: &str, data: &[u8], n: usize) -> String {
             match varlink::Connection::with_activate(&cmd) {
                 Ok(c) => {
                     let pid = c.read().unwrap().child.as_ref().map(|ch| ch.id()).unwrap_or(0);
+                    // the address an activated connection reports must stay usable for further connections
+                    // (Connection::address() exists to clone such a connection)
+                    let again = {
+                        let a = c.read().unwrap().address();
+                        match varlink::Connection::with_address(&a) {
+                            Ok(c2) => hex(&exchange(c2, b"{\"method\":\"org.varlink.service.GetInfo\"}\0")),
+                            Err(e) => format!("err:{}", kind_of(&e)),
+                        }
+                    };
                     let out = exchange(c.clone(), data);
                     let rep = std::fs::read_to_string(&report).unwrap_or_default();
                     let _ = std::fs::remove_file(&report);
@@ -114,7 +123,7 @@ fn transport(kind: &str, data: &[u8], n: usize) -> String {
                         let _ = ch.kill();
                         let _ = ch.wait();
                     }
-                    format!("out={} childpid={} report={}", hex(&out), pid, hex(rep.trim().as_bytes()))
+                    format!("out={} childpid={} report={} again={}", hex(&out), pid, hex(rep.trim().as_bytes()), again)
                 }
                 Err(e) => format!("err:{}", kind_of(&e)),
             }
